@@ -109,7 +109,10 @@ func Raw(g *G, n int) []Program {
 			g.Emit(M{"op": "MantExp", "x": "r0", "z": mant})
 			off := int64(g.Pick(0, 1, -1, 40, -40))
 			var d int64
-			switch g.R.Intn(4) {
+			switch g.R.Intn(5) {
+			case 4: // any int is a legal argument: the ends of int64, where exponent + offset wraps
+				d = g.PickI64(9223372036854775807, -9223372036854775808, 9223372036854775807-int64(g.R.Intn(50)), -9223372036854775808+int64(g.R.Intn(50)),
+					9223372036854775807-2147483648, -9223372036854775808+2147483647, 4294967296, -4294967296, 4294967295, -4294967295)
 			case 0:
 				d = 2147483647 - e + off
 			case 1:
